@@ -13,6 +13,7 @@
    `D1` = the operation also passes the checked interpreter (discipline) on this heap;
    one `<entry>` per pool value AFTER the step:
      <fmt id>:<list id>:<chunk ids joined by .>:<4 memo flags uni,len,s,width>:<color_str flag per chunk>:<atts-object id per chunk>!<fmt>!<render>!<len>!<w<width>|E:kind>
+   `heap1 <wc> <sp> / <op> / … / <op>` runs the same way and reports only the last step.
    A dangling reference answers `E:bad-ref`; an undecodable operation, a bad pool index, an attribute-dict
    method name outside Generated.dictMutators, or a call outside the model's domain (`splice` with
    end < start) answers `bad-op`.
@@ -156,7 +157,7 @@ def splitOps : List String → List (List String)
     | [] => [[t]]
     | cur :: rest => if t == "/" then [] :: cur :: rest else (t :: cur) :: rest
 
-def runSteps (u : UEnv) : List (List String) → List Nat → Heap → Except String (List String)
+def runSteps (u : UEnv) (quiet : Bool) : List (List String) → List Nat → Heap → Except String (List String)
   | [], _, _ => .ok []
   | toks :: rest, pool, h => do
     let op ← match decOp pool toks with
@@ -166,11 +167,13 @@ def runSteps (u : UEnv) : List (List String) → List Nat → Heap → Except St
       | some x => pure x
       | none => throw "E:bad-ref"
     if res == .outside then throw "bad-op"          -- outside the model's domain: no answer
-    let disciplined := (interp u true (opCmd u op) [] h).isSome
+    -- `quiet`: only the last step is reported (the earlier ones set the scene)
+    let silent := quiet && !rest.isEmpty
+    let disciplined := silent || (interp u true (opCmd u op) [] h).isSome
     let pool' := match res with
       | .refs rs => pool ++ rs
       | _ => pool
-    let entries ← match pool'.mapM (encEntry u h') with
+    let entries ← if silent then pure [] else match pool'.mapM (encEntry u h') with
       | some es => pure es
       | none => throw "E:bad-ref"
     -- terminal strings are tagged `T` (compared by what they DISPLAY at property level), guard outcomes `G:raised:<kind>`
@@ -179,7 +182,7 @@ def runSteps (u : UEnv) : List (List String) → List Nat → Heap → Except St
       | .setitem _, .err e | .attsMutate _ _ _, .err e => "G:raised:" ++ e.name
       | _, _ => encRes res
     let step := resS ++ " D" ++ flag disciplined ++ " # " ++ " ".intercalate entries
-    let more ← runSteps u rest pool' h'
+    let more ← runSteps u quiet rest pool' h'
     pure (step :: more)
 
 end Curtsies.Driver.Heap
@@ -191,8 +194,14 @@ def heapOps (args : List String) : Option String :=
   match args with
   | "heap" :: wc :: sp :: "/" :: rest => do
     let u ← decEnv wc sp
-    match Heap.runSteps u (Heap.splitOps rest) [] {} with
+    match Heap.runSteps u false (Heap.splitOps rest) [] {} with
     | .ok steps => pure ("ok " ++ " / ".intercalate steps)
+    | .error e => pure e
+  -- `heap1`: the same program, only the LAST step is reported (used to run one operation on a given pool)
+  | "heap1" :: wc :: sp :: "/" :: rest => do
+    let u ← decEnv wc sp
+    match Heap.runSteps u true (Heap.splitOps rest) [] {} with
+    | .ok steps => pure ("ok " ++ (steps.getLast?.getD ""))
     | .error e => pure e
   | _ => none
 
